@@ -203,7 +203,7 @@ impl M {
             M::B0 => ("Beta", "b0", false, true, false, Recv::Ref, false),
             M::B1 => ("Beta", "b1", false, true, true, Recv::Ref, false),
             M::B2 => ("Beta", "b2", true, false, false, Recv::Ref, false),
-            M::B3 => ("Beta", "b3", false, false, false, Recv::Ref, false),
+            M::B3 => ("Beta", "b3", false, false, true, Recv::Ref, false),
             M::Gm => ("Gamma", "gm", false, false, true, Recv::Mut, false),
             M::Gp => ("Gamma", "gp", false, true, false, Recv::Mut, false),
             M::VReq => ("ByVal", "v_req", false, false, false, Recv::Ref, false),
